@@ -251,8 +251,11 @@ func checkSlice(c core.Case, out []string) *core.Failure {
 			return fail("slice-format", i, c, out, "unparsable")
 		}
 		res := strings.TrimSpace(out[i][:k])
-		if dirty >= 0 && !((t[0] == "fix" && len(t) == 2 || t[0] == "setfix" && len(t) == 3) && t[1] == strconv.Itoa(dirty)) {
-			return nil // the caller broke the heap and did not call Fix: nothing is promised
+		if dirty >= 0 && !((t[0] == "fix" && len(t) == 2 || t[0] == "setfix" && len(t) == 3 || t[0] == "rm" && len(t) == 2) && t[1] == strconv.Itoa(dirty)) {
+			// the caller broke the heap and neither called Fix(i) nor removed the changed element by
+			// Remove(i) (package doc: Fix is equivalent to Remove followed by a Push of the new
+			// value): nothing is promised
+			return nil
 		}
 		switch t[0] {
 		case "seq":
@@ -480,6 +483,8 @@ func checkSlice(c core.Case, out []string) *core.Failure {
 				return fail("slice-rm", i, c, out, "Remove(%d) must return Values[%d]=%d", idx, idx, want)
 			}
 			ref, _ = removeOne(ref, want)
+			// (idx == dirty: the one misplaced element has left, the order is judged again)
+			dirty = -1
 		case "fix":
 			idx, _ := atoi(t[1])
 			if idx < 0 || idx >= len(prev) {
@@ -728,7 +733,22 @@ func genSlice(r *core.Rand) core.Case {
 			nextW, stopW = 18, 2
 			rangeW = 6
 		}
-		switch r.Pick(pushW, 18, 3, 2, 22, 12, 6, 1, 10, 3, rangeW, 1, 6, pullW, nextW, stopW) {
+		switch r.Pick(pushW, 18, 3, 2, 22, 12, 6, 1, 10, 3, rangeW, 1, 6, pullW, nextW, stopW, 7) {
+		case 16:
+			// Values[i] = v followed DIRECTLY by Remove(i): no Fix in between (documented use); v is
+			// mostly one that misleads a one-direction repair of the substitute
+			if n == 0 {
+				continue
+			}
+			e := sim.pickChanged(r, 0)
+			i := sim.idx[e]
+			v := val()
+			if r.Chance(75) {
+				v = sim.advValue(r, 0, e, cn)
+			}
+			lines = append(lines, fmt.Sprintf("set %d %d", i, v), fmt.Sprintf("rm %d", i))
+			sim.vals[e] = v
+			sim.remove(0, e)
 		case 12:
 			// the loop body uses the heap while PopAll is being ranged over
 			if n == 0 && r.Chance(70) {
